@@ -42,15 +42,18 @@ func traceCfg(t *translated, skip map[string]bool) string {
 		sessions = []string{"s1"}
 	}
 	var invs []string
-	for _, i := range []string{"TypeOK", "LockOrder", "StatesCounted", "NoUseAfterDbClose", "DbClosedMeansNoStates", "OnlyOwner"} {
+	for _, i := range []string{"TypeOK", "LockOrderCode", "StatesCounted", "NoUseAfterDbClose", "DbClosedMeansNoStates", "OnlyOwner"} {
 		if !skip[i] {
 			invs = append(invs, i)
 		}
 	}
 	// the deviation switches describe the pinned code; once a deviation is repaired in /repo its switch has to flip
 	// (C19_FIXED=FixCapsOrder,FixIDChanged,... until the driver is updated)
-	sw := map[string]string{"FixAcceptSelect": "FALSE", "FixQueueDiscard": "FALSE", "FixIDChanged": "FALSE", "FixPeek": "FALSE",
-		"FixCapsOrder": "FALSE", "FixReleaseCtx": "FALSE"}
+	// repaired in /repo: FixReleaseCtx (9d0fbaa), FixAcceptSelect (47c03f4), FixQueueDiscard (7b48c68), FixIDChanged (debb5bd);
+	// FixPeek is known finding peek (removeState reads other sessions' snapshots); FixCapsOrder is the latent order of
+	// handleCapability, which LockOrderCode tolerates and the deadlock check covers
+	sw := map[string]string{"FixAcceptSelect": "TRUE", "FixQueueDiscard": "TRUE", "FixIDChanged": "TRUE", "FixPeek": "FALSE",
+		"FixCapsOrder": "FALSE", "FixReleaseCtx": "TRUE"}
 	for _, f := range strings.Split(os.Getenv("C19_FIXED"), ",") {
 		if _, ok := sw[f]; ok {
 			sw[f] = "TRUE"
